@@ -28,6 +28,9 @@ CHECKS = {
  'C08': dict(level='proof', ref='§6 C08', technique='Lean 4 / Mathlib (matrix rank-one update, field identities) + load-class and diagonal-increment correspondence',
    text='Lean theorems: a load on the feed pulse shifts V/I by exactly Z_L for any invertible system, grounded pulses included (weights of load and excitation have ratio Z_L/V); several loads on a pulse act as their sum; series RLC / RL / trap circuit identities at every frequency; zero load, eps_r = 1 insulation (inductance 0, radius unchanged), sigma vs 1/rho; squared modulus of the asymptotic skin-effect impedance is w*mu0/(sigma*(2 pi r)^2), hence -> 0. Tied by comparing every load class, cached zint/zins, equivalent radius and the diagonal increments of the matrix with the executed model; the Bessel ratio of the model is compared with scipy.',
    note=TB + 'Bessel-branch skin effect: no theorem about J0/J1 (abstract parameter), tied numerically at 1e-9; the distribution of per-length impedance over half segments is checked on the implementation against an independent closed form.'),
+ 'C14': dict(level='proof', ref='§6 C14', technique='Lean 4 invariant proof on an abstract session state machine + bit-exact history-vs-fresh correspondence',
+   text='Lean theorems for arbitrary physics functions: cache coherence is an invariant of every operation (frequency change, compute, far, near); every observation of every history equals that of a fresh single-frequency run; repeated / reordered field requests and repeated computes agree; the original setter (cache not reset) is refuted by a kernel-checked 3-operation witness. Tied by attribute write-set discovery on the real object, by bit-for-bit comparison of every observation of random histories (all load kinds) with fresh objects, and by running command lines twice in fresh processes (different PYTHONHASHSEED) with byte-equal stdout and option files.',
+   note=TB + 'the session machine abstracts Z/rhs/current/power into one unit and the pulse-container caches into frequency-independent data (confirmed by the write-set diff); process-level nondeterminism is sampled (two runs), not proved.'),
 }
 NOT_YET = {}
 
